@@ -34,6 +34,12 @@ type coalesceOperator struct {
 	wg            sync.WaitGroup
 	operators     []model.VectorOperator
 	sampleOffsets []uint64
+
+	// checkDuplicates is set when the operators are shards of one expression,
+	// whose series must have distinct labels at every step. It is not set for
+	// the partial results of remote engines, which overlap by design.
+	checkDuplicates bool
+	duplicates      *model.DuplicateLabelCheck
 }
 
 func NewCoalesce(pool *model.VectorPool, operators ...model.VectorOperator) model.VectorOperator {
@@ -41,6 +47,20 @@ func NewCoalesce(pool *model.VectorPool, operators ...model.VectorOperator) mode
 		pool:          pool,
 		operators:     operators,
 		sampleOffsets: make([]uint64, len(operators)),
+	}
+}
+
+// NewShardCoalesce merges the shards of one expression. In addition to
+// NewCoalesce it fails a step at which two series with the same labels have a
+// sample, as the Prometheus engine does: the operators below may have dropped
+// the label that told them apart (rate() drops the metric name), which the
+// shards cannot see on their own.
+func NewShardCoalesce(pool *model.VectorPool, operators ...model.VectorOperator) model.VectorOperator {
+	return &coalesceOperator{
+		pool:            pool,
+		operators:       operators,
+		sampleOffsets:   make([]uint64, len(operators)),
+		checkDuplicates: true,
 	}
 }
 
@@ -137,6 +157,12 @@ func (c *coalesceOperator) Next(ctx context.Context) ([]model.StepVector, error)
 		return nil, nil
 	}
 
+	for i := range out {
+		if err := c.duplicates.Check(out[i]); err != nil {
+			return nil, err
+		}
+	}
+
 	return out, nil
 }
 
@@ -188,6 +214,9 @@ func (c *coalesceOperator) loadSeries(ctx context.Context) error {
 		offset += uint64(len(series))
 	}
 
+	if c.checkDuplicates {
+		c.duplicates = model.NewDuplicateLabelCheck(c.series)
+	}
 	c.pool.SetStepSize(len(c.series))
 	return nil
 }
